@@ -262,7 +262,11 @@ def run_case(case):
           rec.viol(sig, f"{k}: mjwarp {rows[k]} vs mujoco {ref[k]} {ctx}", keys_missing=[str(x) for x in rkeys if x not in wkeys][:6], keys_extra=[str(x) for x in wkeys if x not in rkeys][:6])
       rec.check()
       if cok and rows["nefc_raw"] != ref["nefc"] and (rows["ne"], rows["nf"], rows["nl"]) == (ref["ne"], ref["nf"], ref["nl"]):
-        rec.viol("nefc", f"nefc: mjwarp {rows['nefc_raw']} vs mujoco {ref['nefc']} with identical contact sets {ctx}")
+        zero = [key for key, ii in wkeys.items() if key[0] >= E.T_CFL and key not in rkeys and not np.any(rows["J"][ii])]
+        if zero and rows["nefc_raw"] - ref["nefc"] == len(zero):
+          rec.viol(ZERO_SIG, f"nefc: mjwarp {rows['nefc_raw']} vs mujoco {ref['nefc']}: the {len(zero)} extra rows belong to contacts between bodies without dofs (Jacobian identically zero, MuJoCo marks them exclude=3 and emits nothing) {ctx}", keys_extra=[str(x) for x in zero][:6])
+        else:
+          rec.viol("nefc", f"nefc: mjwarp {rows['nefc_raw']} vs mujoco {ref['nefc']} with identical contact sets {ctx}")
     else:
       rec.inconcl("row structure unstable under ulp probe")
     # ---- multiset membership
@@ -342,18 +346,10 @@ def run_case(case):
         if f == "D" and key[0] == E.T_EQ and m.is_sparse and int(mjm.eq_type[key[1][1]]) in (int(mujoco.mjtEq.mjEQ_CONNECT), int(mujoco.mjtEq.mjEQ_WELD)):
           # mechanism: the sparse branch overwrites body1/body2 with body_weldid[...] and then reads body_invweight0 of
           # those weld parents. D ~ 1/invweight, so D_mjwarp/D_mujoco must equal invweight(body)/invweight(weld parent).
-          e = key[1][1]
-          if int(mjm.eq_objtype[e]) == int(mujoco.mjtObj.mjOBJ_SITE):
-            b1, b2 = int(mjm.site_bodyid[mjm.eq_obj1id[e]]), int(mjm.site_bodyid[mjm.eq_obj2id[e]])
-          else:
-            b1, b2 = int(mjm.eq_obj1id[e]), int(mjm.eq_obj2id[e])
-          w1, w2 = int(mjm.body_weldid[b1]), int(mjm.body_weldid[b2])
-          comp = 1 if (int(mjm.eq_type[e]) == int(mujoco.mjtEq.mjEQ_WELD) and key[2] >= 3) else 0
-          iw_own = mjm.body_invweight0[b1, comp] + mjm.body_invweight0[b2, comp]
-          iw_weld = mjm.body_invweight0[w1, comp] + mjm.body_invweight0[w2, comp]
-          if (w1, w2) != (b1, b2) and iw_weld > 0 and abs(float(rows["D"][i]) / float(ref["D"][j]) - iw_own / iw_weld) <= 1e-3 * (iw_own / iw_weld):
+          want = E.weldparent_invweight_ratio(mjm, key[1][1], key[2])
+          if want is not None and abs(float(rows["D"][i]) / float(ref["D"][j]) - want) <= 1e-3 * want:
             sig = "efc.D:connect_weld:sparse_path_uses_invweight0_of_weld_parent"
-            extra = f"; D ratio {float(rows['D'][i]) / float(ref['D'][j]):.5g} equals invweight0(bodies {b1},{b2})/invweight0(body_weldid {w1},{w2}) = {iw_own / iw_weld:.5g}"
+            extra = f"; D ratio {float(rows['D'][i]) / float(ref['D'][j]):.5g} equals invweight0(constrained bodies)/invweight0(their body_weldid) = {want:.5g}"
         im = [float(con["includemargin"][li]) for li in csel if int(con["slot"][li]) == int(rows["id"][i])]
         if (
           f in ("pos", "margin")
